@@ -207,6 +207,9 @@ func (w *World) snapshotForReload(repo *headers.Repository) string {
 	s := fmt.Sprintf("tip=%s h=%d w=%s\n", repo.LastHash(), repo.Height(), repo.AccumulatedWork().Text(16))
 	H := repo.Height()
 	for h := 0; h <= H; h++ {
+		if !w.sampledHeight(h, H) {
+			continue
+		}
 		hash, err := repo.Hash(w.ctx, h)
 		hs := "-"
 		if hash != nil {
@@ -215,7 +218,7 @@ func (w *World) snapshotForReload(repo *headers.Repository) string {
 		s += fmt.Sprintf("H%d=%s/%s\n", h, hs, errClass(err))
 	}
 	for _, n := range w.m.All {
-		if !n.Accepted {
+		if !n.Accepted || !w.sampled(n) {
 			continue
 		}
 		if !w.onBest(n) {
@@ -228,6 +231,33 @@ func (w *World) snapshotForReload(repo *headers.Repository) string {
 		s += fmt.Sprintf("n%d hh=%d ch=%d/%v/%s\n", n.Serial, repo.HashHeight(n.Hash), ch, cl, errClass(cerr))
 	}
 	return s
+}
+
+// execGrow extends the chain from node B by A headers (serials C, C+1, ...) as one bulk operation: the
+// per-event oracle groups run once at the end.
+func (w *World) execGrow(op Op) {
+	parent := w.bySerial[op.B]
+	if parent == nil {
+		return
+	}
+	w.endTwin()
+	w.c.Event("grow %d headers on n%d (serials from n%d)", op.A, op.B, op.C)
+	w.quiet = true
+	serial := op.C
+	for i := 0; i < op.A && !w.c.Stopped(); i++ {
+		n := w.execMintQuiet(Op{A: serial, B: parent.Serial, C: (i * 7 / 3) % 4 / 3, D: 600, E: 1})
+		if n == nil {
+			break
+		}
+		w.Submit(n, 0, "")
+		parent = n
+		serial++
+	}
+	w.quiet = false
+	w.c.Probe("bulk-growth")
+	if !w.c.Stopped() {
+		w.groupChecks("ok")
+	}
 }
 
 // ---------------------------------------------------------------------------------------------
@@ -648,6 +678,8 @@ func (w *World) Exec(op Op) {
 		w.execMint(op)
 	case "submit":
 		w.execSubmit(op)
+	case "grow":
+		w.execGrow(op)
 	case "drop":
 		w.c.Event("drop n%d", op.A)
 	case "clean":
